@@ -101,6 +101,10 @@ type aluTr struct {
 	info *types.Info
 	fset *token.FileSet
 	err  error
+	// optional extensions used by the lane-body translator (lanebody.go); nil for the scalar handlers
+	callHook func(e *ast.CallExpr, env map[string]string) (string, bool)
+	selHook  func(e *ast.SelectorExpr, env map[string]string) (string, bool)
+	exprHook func(e ast.Expr, env map[string]string) (string, bool) // sees every expression first (floats)
 }
 
 func (t *aluTr) fail(n ast.Node, f string, a ...any) string {
@@ -160,6 +164,11 @@ func aluConv(src string, sw int, ssigned bool, dw int) string {
 }
 
 func (t *aluTr) expr(e ast.Expr, env map[string]string) string {
+	if t.exprHook != nil {
+		if s, ok := t.exprHook(e, env); ok {
+			return s
+		}
+	}
 	if tv, ok := t.info.Types[e]; ok && tv.Value != nil {
 		w, _, ok := basicWS(tv.Type)
 		if !ok {
@@ -200,6 +209,12 @@ func (t *aluTr) expr(e ast.Expr, env map[string]string) string {
 		return t.binary(e, env)
 	case *ast.CallExpr:
 		return t.call(e, env)
+	case *ast.SelectorExpr:
+		if t.selHook != nil {
+			if s, ok := t.selHook(e, env); ok {
+				return s
+			}
+		}
 	}
 	return t.fail(e, "expression %T", e)
 }
@@ -273,6 +288,11 @@ func (t *aluTr) call(e *ast.CallExpr, env map[string]string) string {
 			return t.fail(e, "conversion to %v", tv.Type)
 		}
 		return aluConv(t.expr(e.Args[0], env), sw, ss, dw)
+	}
+	if t.callHook != nil {
+		if s, ok := t.callHook(e, env); ok {
+			return s
+		}
 	}
 	name := types.ExprString(e.Fun)
 	switch {
